@@ -163,6 +163,74 @@ def run(ctx):
     res.site(key, True, {"closure_record_sites": len(recs), "verdict": "ok" if ok else "VIOLATION"})
     if not ok:
         res.find(key, b.loc(), "memory accesses are not recorded in a queue looked up by region name (entry(region).or_default())", "accesses to different regions are serialised, or accesses to one region are not")
+    # R3c every access is recorded: the kind table flows to the record call through order/element-preserving adaptors only,
+    #     unconditionally for every instruction of the block
+    key = "K7|every-access-recorded"
+    from qv.engine import expr_calls
+    KEEP = {"into_iter", "iter", "flat_map", "map", "collect", "flatten", "chain"}
+    DROP = {"filter", "skip", "take", "take_while", "skip_while", "step_by", "filter_map", "nth", "last", "find", "rev", "zip", "peekable", "fuse", "scan", "map_while"}
+
+    def chain_names(e, stop):
+        names, cur = [], e
+        while cur[0] == "call" and cur[2] and not stop(cur):
+            names.append(cur[1].rsplit("::", 1)[-1])
+            cur = cur[2][0]
+        return names, cur
+
+    consumers = []
+    for bb, t, c in b.calls():
+        if c and c.get("name") == "next":
+            e = fn_expr_operand(b, t["args"][0])
+            hit = []
+            walk_expr(e, lambda n: hit.append(n) if n[0] == "array" and len(n[1]) == 3 and all(x[0] == "tuple" for x in n[1]) else None)
+            if hit:
+                consumers.append((bb, e))
+    verdict, detail = "undecided: consumer loop of the access table not found", {}
+    if len(consumers) == 1:
+        bb0, e = consumers[0]
+        names, root_ = chain_names(e, lambda n: False)
+        clos = []
+        walk_expr(e, lambda n: clos.append(n) if n[0] == "closure" else None)
+        bad = set(names) & DROP
+        unknown = set(names) - KEEP - DROP
+        inner_ok = False
+        inner_names = set()
+        for cl in clos:
+            for h in db.by_path.get(cl[1], []):
+                for hh in [h] + db.closures_of(h):
+                    inner_names |= {c.get("name") for b2, t2, c in hh.calls() if c}
+                    rs = [b2 for b2, t2, c in hh.calls() if c and c.get("name") == "record_access_and_get_dependencies"]
+                    if rs and all(rs[0] in hh.dominators().get(rb, set()) for rb in hh.return_blocks()) and not hh.control_deps(rs[0]):
+                        inner_ok = True
+        bad |= inner_names & DROP
+        # the table is built and consumed for every instruction: the flat_map is control dependent only on the loop and on `?`
+        fm = [b2 for b2, t2, c in b.calls() if c and c.get("name") == "flat_map" and any(n[0] == "array" for n in _nodes(fn_expr_operand(b, t2["args"][0])))]
+        extra = []
+        for b2 in fm[:1]:
+            def is_loop_next(a):
+                tt = b.blocks[a]["t"]
+                de = fn_expr_operand(b, tt["d"]) if tt["k"] == "switch" else ("x",)
+                return de[0] == "discr" and de[1][0] == "call" and de[1][1].endswith("::next")
+
+            for sb, tgt in b.control_deps(b2, stop=is_loop_next):
+                tt = b.blocks[sb]["t"]
+                de = fn_expr_operand(b, tt["d"]) if tt["k"] == "switch" else ("x",)
+                inner = de[1] if de[0] == "discr" else ("x",)
+                if inner[0] == "call" and (inner[1].endswith("::next") or inner[1].endswith("Try>::branch")):
+                    continue
+                extra.append(str(de[:2])[:80])
+        detail = {"adaptors": names, "dropping_adaptors": sorted(bad), "unknown_adaptors": sorted(unknown), "record_unconditional_in_closure": inner_ok, "extra_conditions": extra}
+        if bad or extra or not inner_ok or not fm:
+            verdict = "VIOLATION"
+        elif unknown:
+            verdict = "undecided: adaptors %s" % sorted(unknown)
+        else:
+            verdict = "ok"
+    res.site(key, True, dict(detail, verdict=verdict))
+    if verdict == "VIOLATION":
+        res.find(key, b.loc(), "ScheduledBasicBlock::build does not record every (region, access kind) of every instruction in the per-region queue: %s" % detail, "`SHIFT-PHASE 0 \"rf\" theta; MOVE theta 0.5`: the leading read is never registered, so the later write is not ordered after it")
+    elif verdict != "ok":
+        res.undecided.append(key + " " + verdict)
     # AwaitMemoryAccess edge built from the dependency's access type
     key = "K8|await-memory-edge"
     ok = any(s["rv"]["a"]["variant"] == "AwaitMemoryAccess" for bb, s in aggregates(b, sched.EDEP))
@@ -172,3 +240,9 @@ def run(ctx):
     res.explanation = "Structure of the dependency-queue protocol (per-arm field stores and calls on the pending reads, MIR), the classify tables, and the wiring of access kinds to queue accesses in ScheduledBasicBlock::build."
     res.assumptions = ["HashSet::drain/insert semantics; GraphMap edges as added"]
     return res
+
+
+def _nodes(e):
+    out = []
+    walk_expr(e, out.append)
+    return out
